@@ -364,7 +364,7 @@ func allStacks() string {
 }
 
 // the members with goroutines of their own between the application and the transport get more of the cases
-var members = append([]string{"chain", "chain", "chain-reversed", "chain-reversed", "cc-leaky-bucket", "cc-leaky-bucket", "pacing", "nack-responder-small", "nack-responder-small", "nack-responder-rtx"}, kit.AllNames...)
+var members = append([]string{"chain", "chain", "chain-reversed", "chain-reversed", "cc-leaky-bucket", "cc-leaky-bucket", "pacing", "nack-responder-small", "nack-responder-small", "nack-responder-rtx", "nack-responder-rtx", "nack-responder-rtx"}, kit.AllNames...)
 
 func TestConcurrentPrograms(t *testing.T) {
 	if rp := kit.ReplayFile(); rp != "" {
